@@ -2,7 +2,7 @@
 From Coq Require Import List NArith Bool Arith String.
 From RG.Ast Require Import Tree Walker WalkerProof WalkSpec WfCheck WalkPanic.
 From RG.Engine Require Import RunState.
-From RGW Require Import Gen_AstSchema Gen_Walker Gen_WalkTables Gen_WalkState Gen_RunnerState Inst_Walker.
+From RGW Require Import Gen_AstSchema Gen_Walker Gen_WalkTags Gen_WalkState Gen_RunnerState Inst_Walker.
 Import ListNotations.
 Local Open Scope string_scope.
 
